@@ -52,6 +52,42 @@ CHECKS["C07"] = dict(
          "all conflicting accesses; a plain access to an atomic object is rejected outright.",
     note="SC executions only; seq_cst treated as acq_rel. The property's 'long randomised real-thread runs under "
          "ThreadSanitizer' are a different technique and are not built (DESIGN.md section 6).")
+FIB = ("TLA+ spec (Fibre.tla: PassBegin / body calls / PassEnd / outside calls) model-checked with TLC; edge covers and "
+       "simulated behaviours of the TLC state graphs replayed on the real fibre.c (snapshot hook) and validated by TLC against "
+       "TraceFibre.tla; seeded random histories likewise")
+CHECKS["C01"] = dict(
+    engine="tlc+replay+tracecheck", category=MC, design_ref="DESIGN.md section 4/C01", technique=FIB,
+    text="TLC checks NoDup, QueuedIffReason (coalescing), SelfIsLast etc. on every state of the bounded scheduler model; "
+         "every transition of the replayed graphs (1-2 fibres exhaustively, 3 fibres by simulation) is executed on the "
+         "compiled fibre.c and who ran, at which protothread section, fibre_self, every call result and the run/timer/atomic "
+         "queues are compared with the specification after every call.",
+    note="Bounded model (<=3 fibres, times 0..3, <=2 undrained atomic requests exhaustively; 6 fibres / 8 requests randomly); "
+         "quick tier covers a seeded subset of the 2-fibre graph's edges; sequential histories only (interrupts: C06).")
+CHECKS["C02"] = dict(
+    engine="tlc+replay+tracecheck", category=MC, design_ref="DESIGN.md section 4/C02",
+    technique=FIB + "; FibreRing.tla checks cyclic = natural comparison for every base of a 2^5 ring inside the scope "
+              "(and its violation outside); every behaviour is executed at several placements of the 32-bit time base",
+    text="As C01, with the timeout invariants (TimerSorted, NeverLate, NeverEarly) and fibre_timeout's result; wrap "
+         "safety is decided at design level by FibreRing.tla and bound to the code by executing every replayed behaviour and "
+         "random history at placements of the time base that straddle 0xffffffff->0 and 0x7fffffff->0x80000000 (scales up "
+         "to 2^27) and requiring identical event sequences.",
+    note="Scope: due times within 2^31 of now (model horizon x scale < 2^31). Placements: 3 quick / 5 thorough.")
+CHECKS["C03"] = dict(
+    engine="tlc+replay+tracecheck", category=MC, design_ref="DESIGN.md section 4/C03", technique=FIB,
+    text="TLC checks NoOversleep on every state (returned time = now whenever anything is runnable, else earliest due, else "
+         "unbounded); the value returned by every real fibre_scheduler_next call in the replayed and random histories is "
+         "compared with the specification's NextWakeup.",
+    note="Interrupt placements inside fibre_scheduler_next are explored by the FibreIrq part (see C06) when built; the "
+         "sequential part is claimed here.")
+CHECKS["C10"] = dict(
+    engine="tlc+replay+tracecheck", category=MC, design_ref="DESIGN.md section 4/C10",
+    technique="TLA+ spec (MessageQSeq.tla: abstract window + implementation image with refinement invariant) model-checked "
+              "with TLC; edge covers replayed on messageq.c at several message sizes/slacks/initialisers; every geometry "
+              "depth 1..32 x 6 sizes x slacks driven systematically and randomly, validated by TLC against TraceMessageQSeq.tla",
+    text="TLC checks the refinement between the cyclic-index implementation image and the abstract FIFO window for depth "
+         "1..5 under all API-permitted call orders; the real code's returned buffer offsets, NULLs and empty() answers, "
+         "payload integrity and untouched slack bytes are compared call by call for every depth 1..32.",
+    note="Results (offsets, NULL, empty) are compared, not internal fields; ASan + exactly sized storage observe stray writes.")
 NOT_YET = "check not built yet (work in progress; planned per DESIGN.md section 4)"
 NA = {}
 
